@@ -304,8 +304,10 @@ class ViewTranslator:
         L.append("}")
         return "\n".join(L)
 
-    def driver(self, header, top_index, param_values, buffers):
-        """C++ source: for every buffer, construct the top view and dump observations on one line."""
+    def driver(self, header, top_index, param_values, buffers, probes=None):
+        """C++ source: for every buffer, construct the top view and dump observations on one line.
+        probes: names of scalar fields of the top structure whose IsComplete()/Read() are printed on an
+        extra Q line per buffer (compared with a by-construction oracle, not with the model)."""
         t = self.types[top_index]
         name = "::".join([self.cpp_ns(t)] + list(t.name.canonical_name.object_path[:-1])
                          + ["Make%sView" % t.name.canonical_name.object_path[-1]])
@@ -344,7 +346,12 @@ class ViewTranslator:
             L.append("  { static const unsigned char init[] = {%s0}; const ::std::size_t n = %d;" % (arr + (", " if arr else ""), len(b)))
             L.append("    unsigned char *buf = static_cast<unsigned char *>(::std::malloc(n ? n : 1)); ::std::memcpy(buf, init, n);")
             L.append("    auto v = %s(%sbuf, n);" % (name, "".join(ptxt)))
-            L.append('    ::std::printf("B%d");  out(-1); out(v.Ok() ? 1 : 0); dump_T%d(v); ::std::printf("\\n"); ::std::free(buf); }' % (bi, top_index))
+            L.append('    ::std::printf("B%d");  out(-1); out(v.Ok() ? 1 : 0); dump_T%d(v); ::std::printf("\\n");' % (bi, top_index))
+            if probes:
+                L.append('    ::std::printf("Q%d");' % bi + " ".join(
+                    '{ auto f = v.%s(); if (f.Ok()) outv(f.Read()); else ::std::printf(" x"); }' % nm for nm in probes)
+                    + ' ::std::printf("\\n");')
+            L.append('    ::std::free(buf); }')
         L.append("  return 0; }")
         return "\n".join(L) + "\n"
 
@@ -422,10 +429,16 @@ def safety_driver(tr, header, top_index, buffers):
         L.append("    unsigned char *buf2 = static_cast<unsigned char *>(::std::malloc(n ? n : 1)); ::std::memcpy(buf2, init, n);")
         L.append("    auto v = %s(buf, n); auto w = %s(buf2, n);" % (name, name))
         L.append('    mark("observe", %d); ::std::printf("B%d len=%%d", (int)n); out(v.Ok() ? 1 : 0); dump_T%d(v); ::std::printf("\\n");' % (bi, bi, top_index))
+        L.append('    mark("aligned_view", %d); { auto va = %s<unsigned char, 8>(buf, n); ::std::printf("L%d len=%%d", (int)n); out(va.Ok() ? 1 : 0); dump_T%d(va); ::std::printf("\\n"); }'
+                 % (bi, name.replace("::Make", "::MakeAligned"), bi, top_index))
         L.append('    mark("text", %d); { ::std::string t1 = ::emboss::WriteToString(v, ::emboss::TextOutputOptions().WithAllowPartialOutput(true));' % bi)
         L.append('      ::std::string t2 = ::emboss::WriteToString(v, ::emboss::TextOutputOptions().WithAllowPartialOutput(true).Multiline(true).WithComments(true).WithDigitGrouping(true).WithNumericBase(16));')
+        L.append('      // every numeric base, with and without digit grouping (the digit buffers of the integer writer)')
+        L.append('      for (int base : {2, 10, 16}) for (int grp = 0; grp < 2; ++grp) { ::std::string t3 = ::emboss::WriteToString(v, ::emboss::TextOutputOptions().WithAllowPartialOutput(true).WithNumericBase(base).WithDigitGrouping(grp != 0)); sink += (long long)t3.size(); sink += ::emboss::UpdateFromText(w, t3); }')
         L.append('      mark("update_from_text", %d); sink += ::emboss::UpdateFromText(w, t1); sink += ::emboss::UpdateFromText(w, t2); sink += ::emboss::UpdateFromText(w, "{ bogus: 1 }"); sink += ::emboss::UpdateFromText(w, "{"); }' % bi)
         L.append('    mark("copy_equals", %d); sink += w.TryToCopyFrom(v); if (v.Ok() && w.Ok()) { sink += v.Equals(w); sink += w.Equals(v); }' % bi)
+        L.append('    mark("copy_other_length", %d); { unsigned char *buf3 = static_cast<unsigned char *>(::std::malloc(full ? full : 1)); ::std::memcpy(buf3, init, full);' % bi)
+        L.append('      auto vf = %s(buf3, full); sink += w.TryToCopyFrom(vf); sink += vf.TryToCopyFrom(v); if (vf.Ok() && v.Ok()) sink += vf.Equals(v) + v.Equals(vf); ::std::free(buf3); }' % name)
         L.append('    mark("writes", %d); %s' % (bi, " ".join(writes)))
         L.append('    mark("observe_after_writes", %d); ::std::printf("A%d"); out(v.Ok() ? 1 : 0); dump_T%d(v); ::std::printf("\\n");' % (bi, bi, top_index))
         L.append("    ::std::free(buf); ::std::free(buf2); } }")
